@@ -12,14 +12,18 @@ Scales == << <<1, 1>>, <<3, 1>>, <<914400, 100>>, <<1, 2>>, <<7, 3>>, <<12700, 1
 Origins == << <<0, 0>>, <<914400, 457200>>, <<-5, 3>> >>
 Init == \E sx \in V, sy \in V, i \in 1..NSCALE, j \in 1..NSCALE, o \in 1..3 :
           /\ c = [sx |-> sx, sy |-> sy, xn |-> Scales[i][1], xd |-> Scales[i][2], yn |-> Scales[j][1], yd |-> Scales[j][2],
-                  ops |-> <<>>, ox |-> Origins[o][1], oy |-> Origins[o][2]]
+                  ops |-> <<>>, ox |-> Origins[o][1], oy |-> Origins[o][2], cuts |-> <<>>]
           /\ done = FALSE
 AddOp(op) == ~done /\ Len(c.ops) < NOPS /\ c' = [c EXCEPT !.ops = Append(@, op)] /\ UNCHANGED done
 Line  == \E x \in V, y \in V : AddOp([k |-> "line", x |-> x, y |-> y])
 Move  == \E x \in V, y \in V : AddOp([k |-> "move", x |-> x, y |-> y])
 Close == c.ops # <<>> /\ c.ops[Len(c.ops)].k = "line" /\ AddOp([k |-> "close", x |-> 0, y |-> 0])
+\* the builder is an object with a life: convert_to_shape may be called while the pen is half drawn (a "cut" after that many
+\* operations) and again later - the shape of the LAST call must obey the clauses for ALL operations, whatever an earlier call computed
+Snap  == ~done /\ c.ops # <<>> /\ c.ops[Len(c.ops)].k # "move" /\ Len(c.ops) < NOPS /\ c.cuts = <<>>
+         /\ c' = [c EXCEPT !.cuts = <<Len(c.ops)>>] /\ UNCHANGED done
 Convert == ~done /\ done' = TRUE /\ UNCHANGED c /\ PrintT(<<"CASE", ToJson(c)>>)
-Next == Line \/ Move \/ Close \/ Convert
+Next == Line \/ Move \/ Close \/ Snap \/ Convert
 Spec == Init /\ [][Next]_<<c, done>>
 ImplOK == done => FfFailing(c, FfImpl(c)) = {}
 =============================================================================
